@@ -158,6 +158,7 @@ def verify_function(reg, c, budget_paths=MAX_PATHS):
     rep = FunctionReport(c.qname)
     t0 = time.time()
     func = c.func
+    reg.current_props = tuple(c.props)
     info = frontend.funcinfo_of(func)
     rep.source = '%s:%d' % (info.filename, info.node.lineno)
     rep.sha = info.source_sha
